@@ -12,7 +12,7 @@ PROPS['C06'] = dict(
     level_note='Operators are deterministic user functors (dense LU solves for the shift families), so bitwise equality is the right oracle. c06w uses double only (the wrappers are exercised in three scalar types by C11). PartialSVD reuse is covered by C16. Third unit (c06o): DavidsonSymEigsSolver on DenseSymMatProd / SparseSymMatProd / a user operator (fresh vs reused after a prefix of other compute() / compute_with_guess() calls vs second solver on the shared operator vs first solver again, operator fingerprint) and LOBPCGSolver (no init(), continues from its iterate by design: two objects built from the same inputs must agree bit for bit, also with other runs in between).',
     units=[dict(name='c06', src='c06_purity.cpp'), dict(name='c06w', src='c06_wrappers.cpp'), dict(name='c06o', src='c06_others.cpp')],
     runs=dict(
-        quick=[dict(unit='c06', cases=2500, workers=4), dict(unit='c06w', cases=1500, workers=4), dict(unit='c06o', cases=2500, workers=4)],
+        quick=[dict(unit='c06', cases=5000, workers=4), dict(unit='c06w', cases=3000, workers=4), dict(unit='c06o', cases=5000, workers=4)],
         thorough=[dict(unit='c06', cases=25000, workers='all'), dict(unit='c06w', cases=12000, workers='all'), dict(unit='c06o', cases=20000, workers='all')],
     ),
     min=dict(quick=dict(cases=18000, nontrivial=8000, classes={'prefix_with_compute': 3000, 'prefix_with_rejected_call': 1000, 'GenEigsComplexShiftSolver': 800, 'pairs_returned': 2000, 'wrapper_used_before': 2500, 'prefix_with_other_solver': 1500, 'prefix_with_user_calls': 1500, 'SymGEigsSolver<SparseSymMatProd,SparseRegularInverse>': 150, 'DavidsonSymEigsSolver<user operator>': 1500, 'DavidsonSymEigsSolver<SparseSymMatProd>': 1500, 'davidson_iterated': 3000, 'LOBPCGSolver': 1500, 'lobpcg_runs_between': 1000, 'lobpcg_success': 300, 'GenEigsComplexShiftSolver<SparseGenComplexShiftSolve>': 150}),
